@@ -861,4 +861,13 @@ pub mod verif {
         *segments.0.lock().unwrap() = inner_segments.clone();
         (routes, inner_segments)
     }
+
+    /// The per-locale segments stored inside the value `<I18nRoute>` returned (`None` if `routes` is not that value).
+    pub fn stored_segments<L: Locale, View: 'static, Chil: 'static>(
+        routes: &dyn std::any::Any,
+    ) -> Option<Segments<L>> {
+        let routes = routes.downcast_ref::<I18nNestedRoute<L, View, Chil>>()?;
+        let segments = routes.segments.0.lock().unwrap().clone();
+        Some(segments)
+    }
 }
